@@ -159,13 +159,19 @@ def constructive(rng, case, idx):
         kw = {}
         fragile = skind == 'container_solute'
         ok = True
-        concs, quants = [], []
+        concs, quants, dens = [], [], []
+        per_u_ok = any(s_.is_enzyme() for s_ in solutes) and not any(s_.is_enzyme() and a_ > 0 for s_, a_ in portion.items())
         for s in solutes:
             nums = [b for b in R.BASES if R.per(s, b) > 0]
             num = rng.choice(nums)
             den = rng.choice(['L', 'g', 'mol'])
+            # (round 17) ... or per unit of activity, when the solutes bring an enzyme and the solvent portion holds none
+            if per_u_ok and rng.random() < 0.2:
+                den = 'U'
+                M.bucket('C05/constructive/per_unit_of_activity')
             if R.measure(target, den) <= 0:
                 den = 'g'
+            dens.append((s, num, den))
             cval = R.canon(s, added[s] if skind != 'container_solute' else target[s]) * R.per(s, num) / R.measure(target, den)
             if cval < 1e-14 or cval > 1e8:
                 # numerically wild (a stated concentration keeps ten significant digits at every magnitude)
@@ -196,6 +202,12 @@ def constructive(rng, case, idx):
         step = {'op': 'solution', 'solutes': [s.name for s in solutes], 'solvent': skind, 'kw': kw,
                 'target': {s.name: a for s, a in target.items()}}
         expect = {'op': 'Container.create_solution', 'must': 'accept', 'tag': f'constructive:{spec}:{skind}'}
+        enz_rows = [(s_, nu_, de_) for s_, nu_, de_ in dens if s_.is_enzyme()]
+        if 'conc' in spec and enz_rows and all(de_ == 'U' for _, _, de_ in enz_rows):
+            # every enzyme is stated as a share of the total activity: the shares add up to one and leave the activity open
+            # (with a stated quantity of one of them it is determined, but ill-conditioned) - refused or every value met
+            expect = None
+            M.bucket('C05/constructive/all_enzymes_as_shares_of_the_activity')
         if fragile:
             expect = None
         res, exc = w.do('Container.create_solution', step,
